@@ -64,7 +64,19 @@ func checkC05(c c05Case, rec *Rec) *Violation {
 	}
 	accepted := map[string]bool{}
 	var engine *urlfilter.NetworkEngine
+	// every witness is also tried with exactly one letter (all its occurrences) in upper case
+	witnesses := append([]string{}, c.Witnesses...)
 	for _, u := range c.Witnesses {
+		seen := map[byte]bool{}
+		for i := 0; i < len(u) && len(witnesses) < 400; i++ {
+			ch := u[i]
+			if ch >= 'a' && ch <= 'z' && !seen[ch] {
+				seen[ch] = true
+				witnesses = append(witnesses, strings.ReplaceAll(u, string(ch), string(ch-32)))
+			}
+		}
+	}
+	for _, u := range witnesses {
 		ok := status == 0 || re.MatchString(u)
 		if !ok {
 			rec.Label("witness-not-accepted")
@@ -262,12 +274,10 @@ func genC05Regex(t *rapid.T) c05Case {
 func genC05Mask(t *rapid.T) c05Case {
 	m := genC03(t)
 	c := c05Case{Rule: c03RuleText(m)}
-	ref := parseRefMask(m.Pattern)
-	for _, u := range m.Strings {
-		if ref.match(u, m.MC) {
-			c.Witnesses = append(c.Witnesses, u)
-		}
-	}
+	// every derived string is a candidate witness: whether it is accepted is
+	// decided in the check by the rule's own compiled matcher, not by the
+	// reference (a translation defect can make the matcher accept more)
+	c.Witnesses = append(c.Witnesses, m.Strings...)
 	// literal-heavy patterns: the shortcut is long, witnesses vary the case
 	if chance(t, "literal-heavy", 2) {
 		lit := pick(t, "l1", c05Lits) + pick(t, "mid", []string{"", "*", "^", "/", "."}) + pick(t, "l2", c05Lits)
@@ -275,10 +285,7 @@ func genC05Mask(t *rapid.T) c05Case {
 		mc := chance(t, "mc2", 4)
 		c = c05Case{Rule: c03RuleText(c03Case{Pattern: p, MC: mc})}
 		for i := 0; i < 12; i++ {
-			u := c03Derive(t, p, mc)
-			if parseRefMask(p).match(u, mc) {
-				c.Witnesses = append(c.Witnesses, u)
-			}
+			c.Witnesses = append(c.Witnesses, c03Derive(t, p, mc))
 		}
 	}
 	return c
